@@ -269,6 +269,7 @@ fn class_name(c: SrcClass) -> &'static str {
         SrcClass::BlockRepetitive => "blockrep",
         SrcClass::Zeros => "zeros",
         SrcClass::LevelShift => "levelshift",
+        SrcClass::MixedEntropy => "mixedentropy",
     }
 }
 fn class_from(s: &str) -> SrcClass {
@@ -279,6 +280,7 @@ fn class_from(s: &str) -> SrcClass {
         "zeroruns" => SrcClass::ZeroRuns,
         "blockrep" => SrcClass::BlockRepetitive,
         "levelshift" => SrcClass::LevelShift,
+        "mixedentropy" => SrcClass::MixedEntropy,
         _ => SrcClass::Zeros,
     }
 }
